@@ -72,12 +72,18 @@ Section Group.
       unfold powm_ref. destruct (Z.ltb_spec e 0); [lia|reflexivity].
   Qed.
 
-  Lemma index_element_ok (i : Z) : wfe G i -> index_element G i = inl (powm g i p).
+  Lemma index_element_tab_ok (tab : list Z) (i : Z) : fpowm_precompute g p (bitlen q) = Some tab -> wfe G i ->
+    index_element_tab G tab i = inl (powm g i p).
   Proof.
-    intros [Hi Hb]. unfold index_element, table_of. fold p q g.
-    destruct (table_some g) as [tab E]. rewrite E. cbn [rbind].
+    intros E [Hi Hb]. unfold index_element_tab. fold p q g.
     rewrite (fpowm_ui_eq g i p (bitlen q) tab) by (try assumption; lia).
     cbn [of_outcome]. now rewrite powm_spec by lia.
+  Qed.
+
+  Lemma index_element_ok (i : Z) : wfe G i -> index_element G i = inl (powm g i p).
+  Proof.
+    intros Hi. unfold index_element, table_of. fold p q g.
+    destruct (table_some g) as [tab E]. rewrite E. cbn [rbind]. now apply index_element_tab_ok.
   Qed.
 
   Lemma key_share_ok (x : Z) : wfe G x -> key_share G x = inl (powm g x p).
@@ -163,14 +169,15 @@ Section Group.
 
   Definition expected_type (E : Z) : Z := if E mod q <? 2 ^ Z.of_nat w then E mod q else 2 ^ Z.of_nat w.
 
-  Lemma find_type_spec (E : Z) : 0 <= E -> forall n t0, 0 <= t0 -> t0 + Z.of_nat n = 2 ^ Z.of_nat w ->
+  Lemma find_type_spec (tab : list Z) (E : Z) : fpowm_precompute g p (bitlen q) = Some tab -> 0 <= E ->
+    forall n t0, 0 <= t0 -> t0 + Z.of_nat n = 2 ^ Z.of_nat w ->
     (forall t, 0 <= t < t0 -> t <> E mod q) ->
-    find_type G (powm g E p) n t0 (2 ^ Z.of_nat w) = inl (expected_type E).
+    find_type G tab (powm g E p) n t0 (2 ^ Z.of_nat w) = inl (expected_type E).
   Proof.
-    intros HE. induction n as [|n IH]; intros t0 Ht0 Hsum Hprev; cbn [find_type].
+    intros Etab HE. induction n as [|n IH]; intros t0 Ht0 Hsum Hprev; cbn [find_type].
     - unfold expected_type. destruct (Z.ltb_spec (E mod q) (2 ^ Z.of_nat w)) as [L|L]; [|reflexivity].
       exfalso. apply (Hprev (E mod q)); [|reflexivity]. pose proof (Z.mod_pos_bound E q ltac:(lia)). lia.
-    - rewrite index_element_ok by (apply small_wfe; lia). cbn [rbind].
+    - rewrite (index_element_tab_ok tab t0 Etab) by (apply small_wfe; lia). cbn [rbind].
       destruct (Z.eqb_spec (powm g E p) (powm g t0 p)) as [Eq|Ne].
       + symmetry in Eq. apply gpow_inj in Eq; [|lia|lia]. unfold expected_type.
         rewrite <- Eq. destruct (Z.ltb_spec t0 (2 ^ Z.of_nat w)); [reflexivity|lia].
@@ -180,7 +187,9 @@ Section Group.
 
   Lemma type_of_message_ok (E : Z) : 0 <= E -> type_of_message G w (powm g E p) = inl (expected_type E).
   Proof.
-    intros HE. unfold type_of_message. apply find_type_spec; [assumption|lia| |intros; lia].
+    intros HE. unfold type_of_message, table_of. fold p q g.
+    destruct (table_some g) as [tab Etab]. rewrite Etab. cbn [rbind].
+    apply find_type_spec; [assumption|assumption|lia| |intros; lia].
     rewrite Nat2Z.inj_pow. reflexivity.
   Qed.
   End Rec.
